@@ -125,7 +125,7 @@ class WritersHarness(Harness):
                  "ruby: only the base text is required in the payload; annotation text may or may not be rendered")
   outside = ("documents other than the listed skeletons; region geometry for line: settings is concrete (10/70 % origins)",
              "more than 3 paragraphs; more than 2 regions")
-  required_witnesses = ("cue-emitted", "interval-without-cue", "unbounded-last-cue", "tags-present", "two-regions-active")
+  required_witnesses = ("cue-emitted", "interval-without-cue", "unbounded-last-cue", "two-regions-active")
   bounds = {"quick": "%d documents (1-2 regions, several div/p per region, nested spans, br, ruby, preserve-space blanks, markup "
                      "characters, per-span bold/italic/underline/colour/background) x {SRT tf on/off, VTT default, VTT "
                      "line+align without ids}; every begin/end a symbolic rational" % len(DOCS),
@@ -224,6 +224,8 @@ class WritersHarness(Harness):
           ex.prove(used <= declared, "C14:output-independent-of-earlier-calls", {"op": "vtt-writer", "_undeclared": sorted(used - declared), "tags": tags})
     if exc:
       det = {"site": exc[1], "exc": type(exc[0]).__name__, "tags": tags}
+      msg = str(exc[0])
+      det["why"] = "end-not-after-begin" if "must be greater than" in msg else ("end-not-set" if "end time code must be set" in msg else "other")
       ex.fail("C18:writer-raises", det)
       ex.fail("C07:writer-does-not-fail", det)
       return
